@@ -56,6 +56,13 @@ func c18prov(p *Prog, r *Report) {
 				return false
 			}
 			nApp++
+			// plain accumulation only: appending into a truncated view of the list (`append(ts[:pos], v)`)
+			// overwrites ts[pos] before the tail is re-appended — a value is duplicated, another lost
+			if sl, isSl := unwrap(ac.Call.Args[0]).(*ssa.Slice); isSl && sl.High != nil {
+				if _, isConst := sl.High.(*ssa.Const); !isConst || true {
+					okElems = false
+				}
+			}
 			el := ac.Call.Args[1]
 			okTs := dependsOn(el, func(y ssa.Value) bool {
 				tc, _, ok := isCallTo(y, named(HG+".Event.Timestamp"))
